@@ -168,7 +168,7 @@ theorem find_eq_ref_full_false : ¬ find_eq_ref_full := by
   · exact absurd hid (by decide)
   · exact absurd hv (by decide)
 
-/-- F-6b in the model: with the unchanged `_root_keys` (not descending into `$not`) documents are
+/-- F-6b in the model: with the former `_root_keys` (not descending into `$not`) documents are
     not indexed for `{'$not': {'doc.d': 1}}`, and the job whose document has `d == 1` is returned;
     with the fixed root keys it is not. -/
 theorem old_root_keys_lose_documents :
